@@ -47,6 +47,9 @@ def path_op(ctx, job, box):
     label, op, mk = job.params['opspec']
     if job.params.get('wide'):
         run = GridRun(ctx, box, cols, lines, cursor=(3, 0), tabstops=1, sp_charsets='fixed', buffer='none')
+    elif job.params.get('remote'):
+        run = GridRun(ctx, box, cols, lines, tabstops=1, sp_charsets='fixed', dirty='none', titles='none',
+                      extra_mode=False, **remote_opts(cols, lines))
     else:
         run = GridRun(ctx, box, cols, lines, cursor='pick', tabstops=1, savepoints=job.params.get('savepoints', 0),
                       sp_charsets='fixed')
@@ -55,9 +58,17 @@ def path_op(ctx, job, box):
     run.call(op, *mk(ctx))
     if run.outcome == 'panic':
         return run.panic_check('%s panics: %s' % (label, run.msg))
+    if job.params.get('then'):
+        # a second operation on the state the first one left (the DECCOLM round trip on a wide screen)
+        label2, op2, mk2 = job.params['then']
+        run.call(op2, *mk2(ctx))
+        if run.outcome == 'panic':
+            return run.panic_check('%s after %s panics: %s' % (label2, label, run.msg))
+        label = label + ' > ' + label2
     checks = [run.check(inv_core(run.eng, L, run.post), 'after %s the state is not well-formed, so later calls are not covered' % label)]
-    # afterwards display() still returns
-    if op != 'display':
+    # afterwards display() still returns (not repeated on the remote screens: display() forks on every cell that
+    # may be present, and C10 runs it on remote screens separately)
+    if op != 'display' and not job.params.get('remote'):
         run.call('display')
         if run.outcome == 'panic':
             return run.panic_check('display() after %s panics: %s' % (label, run.msg))
@@ -188,6 +199,19 @@ def jobs(tier):
     for spec in sweep.ops(tier, 132, 1):
         if 'DECCOLM' in spec[0] or spec[1] in ('reset', 'tab'):
             js.append(Job('op/%s/132x1' % spec[0], path_op, opspec=spec, geom=(132, 1), wide=True, prop=PROP))
+    # never-written screens wider than 132 columns and wider than a byte can count: SM ?3, RM ?3 and the round trip
+    for w in ((133, 256) if tier == 'quick' else (131, 133, 255, 256, 257, 300, 512)):
+        specs = {sp[0]: sp for sp in sweep.ops('quick', w, 1)}
+        sm, rm = specs['set_mode/?DECCOLM'], specs['reset_mode/?DECCOLM']
+        js.append(Job('op/%s/%dx1' % (sm[0], w), path_op, opspec=sm, geom=(w, 1), wide=True, prop=PROP))
+        js.append(Job('op/%s/%dx1' % (rm[0], w), path_op, opspec=rm, geom=(w, 1), wide=True, prop=PROP))
+        js.append(Job('op/DECCOLM-roundtrip/%dx1' % w, path_op, opspec=sm, then=rm, geom=(w, 1), wide=True, prop=PROP))
+    # the geometry-dependent operations far from the small screens (sparsely written 9x6; thorough + 17x9)
+    for g in remote_geoms(tier, big=False):
+        for spec in sweep.remote_ops(g[0], g[1]):
+            if spec[1] == 'resize':
+                continue
+            js.append(Job('op/remote/%s/%dx%d' % (spec[0], g[0], g[1]), path_op, opspec=spec, geom=g, remote=True, prop=PROP))
     n = 3 if tier == 'quick' else 4
     js.append(Job('chars/len%d' % n, path_chars, len=n, prop=PROP))
     shaped = [('\x1b[', 2), ('\x9b', 2), ('\x9b1;', 2), ('\x9b?', 2), ('\x1b]', 2), ('\x9d0;', 2), ('\x9b' + '9' * 22, 1),
@@ -215,7 +239,9 @@ META = {
                   'ParserListener::{escape,basic,csi}_dispatch', 'all 37 ParserListener methods of Screen', 'Screen::resize',
                   'display', 'Screen::new'],
     'bounds': '(a) every operation of the sweep from symbolic well-formed states on {2x1,2x2,1x3} (thorough + {1x1,1x2,3x2,2x3}), '
-              'numeric arguments absent or 0..=9999, resize targets 1..=size+2, each followed by display(); (b) strings of '
+              'numeric arguments absent or 0..=9999, resize targets 1..=size+2, each followed by display(); the DECCOLM '
+              'switches and their round trip on never-written screens of 132, 133, 256 (thorough 131..512) columns; the '
+              'geometry-dependent operations on a sparsely written 9x6 (thorough + 17x9) screen; (b) strings of '
               '3 (thorough 4) unconstrained symbolic code points and shaped families (CSI/OSC bodies, 22-digit parameter, '
               'designators, wide and combining prefixes) through Parser<Screen> on a fresh 2x2 (and 1x1) screen, both modes, '
               'followed by display(), more input and display(); (c) 1..2 (thorough 3) symbolic bytes in every chunking and '
